@@ -316,7 +316,7 @@ func execute(c *core.Ctx, rs runSpec) (*runResult, error) {
 			}
 		}
 	}
-	rec := map[string]any{"ev": "Recovered", "min": 0, "opened": false, "docs": []any{}, "seq": 0, "count": 0, "matchall": []any{}}
+	rec := map[string]any{"ev": "Recovered", "kind": "crash", "min": 0, "opened": false, "docs": []any{}, "seq": 0, "count": 0, "matchall": []any{}}
 	idx, err := bleve.Open(idxDir)
 	if err != nil {
 		res.Err = "open: " + err.Error()
